@@ -252,12 +252,13 @@ class Examiner:
         del Canary.reads[:]
         _A.update(code=code, bad=[], own_exec=0, calls=[], seen=Counter())
         outcome = "returned"
+        self.last_value = None
         try:
             try:
                 if self.old_alarm is not None:
                     signal.setitimer(signal.ITIMER_VIRTUAL, EVAL_TIMEOUT_S)  # CPU seconds: immune to machine load
                 _A["phase"] = "eval"
-                fn(**kw)
+                self.last_value = ("val", fn(**kw))
             finally:
                 _A["phase"] = None
                 if self.old_alarm is not None:
@@ -268,6 +269,7 @@ class Examiner:
             raise
         except BaseException as exc:  # evaluation errors are not violations
             outcome = "raised_" + type(exc).__name__
+            self.last_value = ("exc", type(exc).__name__)
         finally:
             if code is not None and tool is not None:
                 mon.set_local_events(tool, code, 0)
@@ -290,6 +292,37 @@ class Examiner:
         detail = {"builtins_reads": list(self.rb.reads[:5]), "attribute_reads": list(Canary.reads[:5]),
                   "audit": list(_A["bad"][:5]), "calls": [getattr(c, "__name__", repr(c)) for c in _A["calls"][:5]]}
         return outcome, sorted(set(effects)), detail
+
+    # ---- value oracle: an accepted expression denotes a function of its variables over the documented functions
+    _OWN_FUNCS = {"abs": abs, "min": min, "max": max, "round": round, "float": float, "int": int, "str": str, "bool": bool}
+
+    def own_value(self, expr, assignment):
+        """Python's own value of ``expr`` with the declared variables as the innermost scope (a declared variable named
+        like a documented function IS the variable) and only the documented functions outside it."""
+        if any(v == "<canary>" for v in assignment.values()):
+            return None
+        try:
+            return ("val", eval(compile(expr, "<own-eval>", "eval"), {"__builtins__": {}, **self._OWN_FUNCS}, dict(assignment)))
+        except RecursionError:
+            return None
+        except BaseException as exc:
+            return ("exc", type(exc).__name__)
+
+    @staticmethod
+    def same_value(a, b) -> bool:
+        if a is None or b is None:
+            return True
+        if a[0] != b[0]:
+            return False
+        if a[0] == "exc":
+            return a[1] == b[1]
+        x, y = a[1], b[1]
+        if type(x) is not type(y):
+            return False
+        try:
+            return bool(x == y) or (x != x and y != y)
+        except Exception:
+            return True
 
     # ---- the real compile under the compile-time audit window
     def _compile(self, expr):
@@ -397,6 +430,14 @@ class Examiner:
                     gc.collect()  # confirm by re-execution before reporting
                     outcome, eff, detail = self._evaluate(fn, code, a)
                     run.count("evaluations_monitored")
+                if key is None and outcome != "timeout" and not eff:
+                    mine = self.own_value(expr, a)
+                    run.count("evaluation_values_compared" if mine is not None else "evaluation_values_not_compared")
+                    if not self.same_value(self.last_value, mine):
+                        self.violate("evaluation_value_differs_from_expression_over_its_variables",
+                                      f"accepted {expr!r} evaluated on {a} gives {self.last_value!r}; the expression over its declared "
+                                      f"variables and the documented functions denotes {mine!r}",
+                                      dict(witness, via=via, assignment=repr(a), observed=repr(self.last_value), expected=repr(mine)))
                 outcomes.append(outcome)
                 if outcome == "timeout" and len(self.timeouts) < 5:
                     self.timeouts[expr] = repr(a)
@@ -626,6 +667,19 @@ def run(run):
             for shape in ("{f}(x)", "max(x, {f}(y))", "float({f}(str(x)))", "round(x, ndigits={f}(y))", "x if {f}(x) else y",
                           "abs(-{f}(x))"):
                 ex.examine(shape.format(f=f), "history", {"after_evaluator_with_extra_funcs": f})
+        # ---- declared variables NAMED LIKE the documented functions: a declared variable is a variable
+        wl = ["abs", "min", "max", "round", "float", "int", "str", "bool"]
+        saved_assignments = ex.assignments
+        for fi, f in enumerate(wl):
+            g_ = wl[(fi + 3) % len(wl)]
+            ex.names = frozenset({"x", f, g_})
+            ex.assignments = [{"x": 2, f: 5, g_: 3}, {"x": -1.5, f: 0.25, g_: 7}]
+            for shape in ("{f} + 1", "x * {f}", "{f} - {g}", "{f} if {g} > x else x", "-{f}", "({f}, {g})"):
+                ex.examine(shape.format(f=f, g=g_), "history", {"variable_named_like_function": f})
+            other = [w for w in wl if w not in (f, g_)][0]
+            ex.examine(f"{other}({f})", "history", {"variable_named_like_function": f, "called": other})
+        ex.assignments = saved_assignments
+        ex.names = frozenset({"x", "y"})
         ex.ev = ex.safe_eval.ExpressionEvaluator()      # a default evaluator created AFTER that history
         for f in extra:
             ex.examine(f"{f}(x)", "history", {"fresh_default_evaluator_after_extra_funcs": f})
